@@ -414,6 +414,8 @@ def _collection_spec(fa, expr, at, depth=4):
                     break
                 if isinstance(sib, ast.If) and not A.sig_stmts(sib.orelse) and len(A.sig_stmts(sib.body)) == 1 and isinstance(A.sig_stmts(sib.body)[0], ast.Continue):
                     pre += _split_atoms(sib.test, False)
+                elif isinstance(sib, (ast.Assign, ast.AnnAssign, ast.AugAssign, ast.Expr)) and name not in A.names_in(sib):
+                    continue  # work done for every element: it does not decide whether the element is taken
                 else:
                     return None
             after = A.sig_stmts(blk)[A.sig_stmts(blk).index(cur) + 1:]
@@ -927,6 +929,19 @@ def _joined(fa, expr, at):
     return None
 
 
+def _every_iteration_passes(fa, head, nodes):
+    """Does every iteration of the loop headed by CFG node `head` execute one of `nodes` (before it comes back to the head
+    or leaves the loop in any way but an exception)?"""
+    starts = [d for (d, l) in fa.cfg.succ[head] if l == "T"]
+    nodes = set(nodes)
+    if not nodes or not starts:
+        return False
+    left = {d for (d, l) in fa.cfg.succ[head] if l != "T" and l != "exc"}
+    r = fa.cfg.reach(starts, removed=nodes, edge_ok=lambda s_, d_, l_: l_ != "exc")
+    body = fa.cfg.reach(starts, removed={head}, edge_ok=lambda s_, d_, l_: l_ != "exc")
+    return head not in r and fa.cfg.exit not in r and not (r & left) and bool(nodes & body)
+
+
 def _copied_params(fa, expr, at, _seen=None):
     """Parameters whose value can reach `expr` by plain copying (names, conditional expressions,
     `or` / `and`), i.e. without passing through a call."""
@@ -986,7 +1001,7 @@ def check_digest_consumes_rules(ck, R):
         if isinstance(s_, ast.Assign) and "call:compute_hash" in fa.deps(s_.value):
             for t in s_.targets:
                 if isinstance(t, ast.Attribute) and isinstance(t.value, ast.Name) and t.value.id == lv:
-                    if same_loop or (fa.conditions(s_) == {frozenset()} and not any(isinstance(x, (ast.Break, ast.Return, ast.Continue)) for x in A.walk_local(lp.ast))):
+                    if same_loop or _every_iteration_passes(fa, lp.id, fa.nodes(s_)):
                         hash_attrs.add(t.attr)
     fv = feed["var"]
     piece = feed["piece"]
@@ -1064,6 +1079,72 @@ def check_digest_consumes_rules(ck, R):
     okroot = A.norm(_call_arg(ck, root, MRI, "obj")) == "self" and A.norm(_call_arg(ck, root, MRI, "first_level")) == "True" and A.norm(_call_arg(ck, coll, CTD, "root_fn")) == "self"
     ck.ob(R, fa.key(root, "self-rule-root"), okroot, "the traversal starts at the function's own rule" if okroot else
           "the traversal does not start from the function's own rule (obj=self, first_level=True, root_fn=self)", fa.where(root))
+
+
+def check_recompute_from_scratch(ck, R):
+    """A recomputation of the version is a computation FROM SCRATCH: what is digested for a rule is the value that rule's
+    compute_hash() returns in this very recomputation, on every path.  A value remembered from an earlier evaluation (a
+    table shared between functions, the rule's own field as it was) is only as fresh as whatever invalidates it; the
+    generation counter does not: it advances when a scan notices a change, not when the change happens."""
+    ck.rule(R, "a recomputation is from scratch: the hash digested for a rule is what its compute_hash() returns in this very "
+               "recomputation, on every path", 1)
+    fa = FA(ck, MF + "._recompute_version")
+    feed = _digest_feed(fa)
+    ck.need(feed is not None, "_recompute_version: expected one place that feeds the rule hashes to the digest (a loop updating a hasher, or a hasher over a join of the pieces)")
+    fv, piece = feed["var"], feed["piece"]
+    feed_nodes = fa.nodes(piece) or [feed["iter_at"]]
+    loop_vars = {n.ast.target.id: n.id for n in fa.cfg.nodes if n.kind == "for" and isinstance(n.ast.target, ast.Name)}
+
+    def computed_now(e, at):
+        """does the value of `e` come from <rule>.compute_hash() of a rule the function is iterating over?"""
+        return any(isinstance(x, ast.Call) and A.call_attr(x) == "compute_hash" and isinstance(A.call_recv(x), ast.Name) and A.call_recv(x).id in loop_vars
+                   for x in ast.walk(e))
+
+    def alternatives(e, at, depth=4):
+        """_alternatives, with `a or b` / `a and b` giving each operand that can be the result"""
+        out = []
+        for (x, a_) in _alternatives(fa, e, at):
+            if isinstance(x, ast.BoolOp) and depth > 0:
+                for v in x.values:
+                    out += alternatives(v, a_, depth - 1)
+            else:
+                out.append((x, a_))
+        return out
+
+    origins = []   # (what is read in the piece, [(alternative, node)], [nodes of the assignments it is read from] or None)
+    for x in ast.walk(piece):
+        if isinstance(x, ast.Attribute) and isinstance(x.value, ast.Name) and x.value.id == fv and isinstance(x.ctx, ast.Load) \
+                and not (isinstance(fa.pm.get(x), ast.Call) and fa.pm.get(x).func is x):
+            asg = [s_ for s_ in fa.stmts(ast.Assign) if fa.nodes(s_) and any(isinstance(t, ast.Attribute) and t.attr == x.attr and isinstance(t.value, ast.Name)
+                                                                             and t.value.id in loop_vars for t in s_.targets)]
+            alts_ = [a_ for s_ in asg for a_ in alternatives(s_.value, fa.nodes(s_)[0])]
+            origins.append((x, alts_, fa.nodes_all(asg)))
+        elif isinstance(x, ast.Name) and isinstance(x.ctx, ast.Load) and x.id != fv and fa.df.is_local(x.id) and x.id not in fa.fi.params:
+            origins.append((x, [a_ for at in feed_nodes for a_ in alternatives(x, at)], None))
+        elif isinstance(x, ast.Call) and A.call_attr(x) == "compute_hash":
+            origins.append((x, [(x, feed_nodes[0])], None))
+    ck.need(bool(origins), "_recompute_version: what is digested for a rule (`%s`) reads neither the rule nor a local" % A.short(piece, 50))
+    stale = []
+    for (x, alts_, asg_nodes) in origins:
+        if not alts_:
+            stale.append((x, "`%s`, which this recomputation never assigns" % A.norm(x)))
+        for (e, at) in alts_:
+            if not computed_now(e, at):
+                stale.append((e, "`%s`%s" % (A.short(e, 50), (" (= `%s`)" % fa.xnorm(e, at)[:90]) if fa.xnorm(e, at) != A.norm(e) else "")))
+        if asg_nodes is not None and alts_:
+            # the field is assigned in this recomputation before it is read, in the same iteration when both are in one loop
+            head = loop_vars.get(fv)
+            for fn_ in feed_nodes:
+                in_loop = head is not None and fa.inside(piece, fa.cfg.node(head).ast)
+                okp = fa.cfg.must_pass(asg_nodes, fn_, start=head, edge_ok=lambda s_, d_, l_: d_ != head) if in_loop else fa.cfg.must_pass(asg_nodes, fn_)
+                if not okp:
+                    stale.append((x, "`%s` as it was before this recomputation (on some path it is read before being assigned)" % A.norm(x)))
+    ok = not stale
+    ck.ob(R, fa.key(feed["stmt"], "hash-computed-now"), ok, "every rule's hash is computed in the recomputation that digests it" if ok else
+          "_recompute_version can digest for a rule %s instead of what rule.compute_hash() returns now: a value remembered from an earlier evaluation "
+          "(per generation, per rule key ...) is stale as soon as a tracked variable is re-bound or a helper redefined - nothing advances the generation "
+          "until a scan notices - so a function that recomputes without having scanned adopts the old hash, and its freshly collected rules then "
+          "report 'unchanged' for ever" % stale[0][1] if stale else "", fa.where(stale[0][0] if stale and hasattr(stale[0][0], "lineno") else feed["stmt"]))
 
 
 # --------------------------------------------------------------------------------- C01.R4
